@@ -1,6 +1,150 @@
-(* Props/C07.v — property theorems only; proofs live in Proofs/. (placeholder, filled below) *)
-From Coq Require Import List NArith ZArith.
-From Cedar Require Import Lib.Bytes Model.Cache.
-Theorem C07_placeholder : forall c, size c = Z.of_nat (length (c_sessions c)).
-Proof. reflexivity. Qed.
-Print Assumptions C07_placeholder.
+(* Props/C07.v — property theorems only; proofs live in Proofs/C07.v, the
+   history/reference-map definitions in Proofs/C07Ref.v, the cache model in
+   Model/Cache.v. *)
+From Coq Require Import List ZArith Bool.
+From Cedar Require Import Lib.Bytes Model.Cache Proofs.C07Ref Proofs.C07.
+Import ListNotations.
+Local Open Scope Z_scope.
+
+(* The key strings "{tag,addr,<cmd>}" / "{addr,<cmd>}" determine (tag, addr, cmd)
+   when none of the three contains a comma. *)
+Theorem C07_key_inj : forall t a c t' a' c',
+  no_comma t -> no_comma a -> no_comma c -> no_comma t' -> no_comma a' -> no_comma c' ->
+  cmd_key t a c = cmd_key t' a' c' -> t = t' /\ a = a' /\ c = c'.
+Proof. exact cmd_key_inj. Qed.
+Print Assumptions C07_key_inj.
+
+(* ... and the side condition is needed: a tag-less handshake to address "t,a"
+   uses the key of (tag "t", address "a").  Reported in notes/C07.md. *)
+Theorem C07_key_inj_needs_side_condition :
+  cmd_key [] [x74; ch_comma; x61] [x31] = cmd_key [x74] [x61] [x31].
+Proof. exact cmd_key_collision. Qed.
+Print Assumptions C07_key_inj_needs_side_condition.
+
+(* Refinement.  For every history of client handshakes against arbitrary peers
+   (restarted servers, broken connections, any reply), clock ticks, Invalidate,
+   InvalidateExpired and LookupNonExpired in which tags/addresses/commands are
+   comma-free and no server announces an id the cache still refers to:
+   the cache is exactly the image of the reference map under the key encoding;
+   LookupByCommand answers what the reference map answers; the session a
+   handshake rides (client_action = AResume sid) is the reference map's; and the
+   reference map only ever offers a stored session that was established under
+   the same tag, to the same address, with the command among the ValidCommands
+   its server declared, and that is not expired. *)
+Theorem C07_refines : forall h,
+  good h ->
+  let '(c, now) := run h in
+  let '(r, _) := ref_run h in
+  c = image r /\
+  forall t a cm, wf_triple (t, a, cm) ->
+    lookup_by_command c now t a cm = option_map fst (ref_lookup r now (t, a, cm)) /\
+    (forall sid, client_action c now [] t a (Some cm) = AResume sid ->
+       exists x, ref_lookup r now (t, a, cm) = Some x /\ e_id (fst x) = sid) /\
+    (forall x, ref_lookup r now (t, a, cm) = Some x ->
+       In x (r_sessions r) /\ e_tag (fst x) = t /\ e_addr (fst x) = a /\ In cm (snd x)
+       /\ is_expired (fst x) now = false).
+Proof. exact refines_full. Qed.
+Print Assumptions C07_refines.
+
+(* Drop-on-failure, for ANY cache state representing a map: when the server
+   answers SID_NOT_FOUND or the exchange breaks, the handshake (which was a
+   resumption of e) returns a SessionResumptionError, afterwards no lookup API
+   returns the session at any time, no command mapping points to it, and the
+   next handshake for the same triple sends a full-handshake request. *)
+Theorem C07_drop_on_failure : forall c now t a cm p e,
+  cache_ok c -> a <> [] ->
+  lookup_by_command c now t a cm = Some e ->
+  (on_resume p (e_id e) = RSidNotFound \/ on_resume p (e_id e) = RBroken) ->
+  let c' := fst (client_handshake c now [] t a (Some cm) p) in
+  client_action c now [] t a (Some cm) = AResume (e_id e) /\
+  snd (client_handshake c now [] t a (Some cm) p) = OResumeErr (e_id e) /\
+  gone c' (e_id e) /\
+  (forall kv, In kv (c_cmdmap c') -> snd kv <> e_id e) /\
+  (forall now', client_action c' now' [] t a (Some cm) = AFull) /\
+  cache_ok c'.
+Proof. exact drop_on_failure. Qed.
+Print Assumptions C07_drop_on_failure.
+
+(* the hypothesis cache_ok holds in every reachable state *)
+Theorem C07_cache_is_a_map : forall h, cache_ok (fst (run h)).
+Proof. exact cache_ok_run. Qed.
+Print Assumptions C07_cache_is_a_map.
+
+(* ConnectAndAuthenticateWithConfig: after such a failure the retry is a full handshake *)
+Theorem C07_retry_is_full : forall c now t a cm p1 p2 e,
+  cache_ok c -> a <> [] ->
+  lookup_by_command c now t a cm = Some e ->
+  (on_resume p1 (e_id e) = RSidNotFound \/ on_resume p1 (e_id e) = RBroken) ->
+  exists c1,
+    fst (client_handshake c now [] t a (Some cm) p1) = c1 /\
+    client_action c1 now [] t a (Some cm) = AFull /\
+    connect_and_authenticate c now [] t a (Some cm) p1 p2 =
+      (fst (full_auth c1 now t a p2), [OResumeErr (e_id e); snd (full_auth c1 now t a p2)]).
+Proof. exact retry_is_full. Qed.
+Print Assumptions C07_retry_is_full.
+
+(* Invalidate removes every route: afterwards Lookup, LookupNonExpired,
+   LookupByCommand (any triple) and ClientHandshake (any configuration, explicit
+   SessionID included) never yield the session, at any time; and when it was
+   present, no command mapping to it is left. *)
+Theorem C07_no_route_invalidate : forall c id,
+  gone (fst (invalidate c id)) id /\
+  (snd (invalidate c id) = true -> forall kv, In kv (c_cmdmap (fst (invalidate c id))) -> snd kv <> id).
+Proof. exact invalidate_gone. Qed.
+Print Assumptions C07_no_route_invalidate.
+
+(* Expiry removes every route *)
+Theorem C07_no_route_expired : forall c now id e,
+  find_sess id (c_sessions c) = Some e -> is_expired e now = true ->
+  lookup c now id = None /\ snd (lookup_nonexpired c now id) = None /\
+  (forall t a cm e', lookup_by_command c now t a cm = Some e' -> e_id e' <> id) /\
+  (forall sid t a cmd, client_action c now sid t a cmd <> AResume id).
+Proof. exact expired_no_route. Qed.
+Print Assumptions C07_no_route_expired.
+
+(* InvalidateExpired leaves no expired session and no mapping without a session *)
+Theorem C07_sweep_clean : forall c now,
+  let c' := fst (invalidate_expired c now) in
+  (forall e, In e (c_sessions c') -> is_expired e now = false) /\
+  (forall kv, In kv (c_cmdmap c') -> find_sess (snd kv) (c_sessions c') <> None).
+Proof. exact sweep_clean. Qed.
+Print Assumptions C07_sweep_clean.
+
+(* a removed session stays unreachable through every continuation of the
+   history in which no server announces the same id again *)
+Theorem C07_no_route_stays : forall h st id,
+  find_sess id (c_sessions (fst st)) = None -> never_announced id h ->
+  gone (fst (run_from st h)) id.
+Proof. exact absent_stays. Qed.
+Print Assumptions C07_no_route_stays.
+
+(* ---- non-vacuity: a realistic history satisfying the hypotheses ------------ *)
+Definition ex_tagA : str := [x74; x61; x67; x41].                               (* tagA *)
+Definition ex_addr : str := [x3c; x31; x30; x2e; x30; x2e; x30; x2e; x31; x3a; x39; x36; x31; x38; x3e]. (* <10.0.0.1:9618> *)
+Definition ex_421 : str := [x34; x32; x31].
+Definition ex_60007 : str := [x36; x30; x30; x30; x37].
+Definition ex_valid : str := ex_421 ++ [ch_comma] ++ ex_60007.                  (* "421,60007" *)
+Definition ex_peer (sid : str) (rr : resume_reply) : peer :=
+  {| on_full := FOk {| f_sid := sid; f_user := None; f_valid := ex_valid; f_dur := 2100; f_lease := 950;
+                       f_key := Some {| k_data := []; k_proto := [] |}; f_authmethods := []; f_crypto := [] |};
+     on_resume := fun _ => rr |}.
+Definition ex_history : list event :=
+  [ EHandshake ex_tagA ex_addr (Some ex_421) (ex_peer [x53; x31] RAuthorized);   (* full: S1 under tagA *)
+    EHandshake [] ex_addr (Some ex_421) (ex_peer [x53; x32] RAuthorized);        (* no tag: full again: S2 *)
+    ETick 500;
+    EHandshake ex_tagA ex_addr (Some ex_60007) (ex_peer [x53; x33] RAuthorized); (* rides S1 *)
+    EHandshake [] ex_addr (Some ex_421) (ex_peer [x53; x34] RSidNotFound);       (* S2 forgotten: dropped *)
+    EInvalidateExpired ].
+
+Example C07_example_good : good ex_history.
+Proof.
+  unfold good, ex_history. cbn [good_from].
+  repeat split; try (intro H; vm_compute in H; intuition discriminate);
+    try (intros _; intro H; vm_compute in H; intuition discriminate).
+Qed.
+Example C07_example_rides :
+  let '(c, now) := run ex_history in
+  client_action c now [] ex_tagA ex_addr (Some ex_60007) = AResume [x53; x31] /\
+  client_action c now [] [] ex_addr (Some ex_60007) = AFull /\
+  client_action c now [] [] ex_addr (Some ex_421) = AFull.
+Proof. vm_compute. repeat split. Qed.
